@@ -65,6 +65,8 @@ pub struct Engine {
     granted: HashMap<u32, u64>,
     cont: Option<(u32, bool, Vec<u8>)>,
     pub fatal: Option<String>,
+    /// encode the next header block with literals only (trailers)
+    pub literal_next: bool,
     pub trace: Option<String>,
     recv_off: HashMap<u32, u64>,
     sent_off: HashMap<u32, u64>,
@@ -110,6 +112,7 @@ impl Engine {
             granted: HashMap::new(),
             cont: None,
             fatal: None,
+            literal_next: false,
             trace: None,
             recv_off: HashMap::new(),
             sent_off: HashMap::new(),
@@ -128,6 +131,11 @@ impl Engine {
         self.recv_expected.insert(stream, bytes);
     }
 
+    /// DATA frames that were accounted against the connection window but never sent
+    pub fn refund_connection_window(&mut self, bytes: usize) {
+        self.conn_send += bytes as i64;
+    }
+
     pub fn open_send(&mut self, stream: u32) {
         self.send_win.entry(stream).or_insert(self.peer_initial_window);
     }
@@ -141,7 +149,18 @@ impl Engine {
         if let Some(t) = &self.trace {
             eprintln!("[{t}] -> HEADERS s={stream} end={end_stream} {:?}", list.iter().map(|(n, v)| format!("{}={}", String::from_utf8_lossy(n), String::from_utf8_lossy(&v[..v.len().min(20)]))).collect::<Vec<_>>());
         }
-        let block = self.enc.encode(list);
+        let block = if self.literal_next {
+            // fields encoded without touching the dynamic table: the frame may be dropped
+            // (stream reset by the peer before it is sent) without desynchronising HPACK
+            let mode = self.enc.mode;
+            self.enc.mode = h2::HpackMode::LiteralOnly;
+            let b = self.enc.encode(list);
+            self.enc.mode = mode;
+            self.literal_next = false;
+            b
+        } else {
+            self.enc.encode(list)
+        };
         let max = self.peer_max_frame.max(1);
         if block.len() <= max {
             out.extend(encode_frame(&Frame::headers(stream, &block, end_stream, true)));
@@ -209,6 +228,9 @@ impl Engine {
     }
 
     fn headers_complete(&mut self, stream: u32, end: bool, block: &[u8], evs: &mut Vec<Ev>) {
+        if let Some(t) = &self.trace {
+            eprintln!("[{t}] HBLOCK s={stream} len={} {}", block.len(), hex::encode(block));
+        }
         match self.dec.decode(block) {
             Ok(list) => evs.push(Ev::Headers { stream, list, end }),
             Err(e) => self.fail(format!("HPACK decode error on stream {stream}: {e}")),
@@ -527,6 +549,7 @@ impl Sender {
             }
             SState::Trailers => {
                 let list: HeaderList = vec![(b"x-body-check".to_vec(), self.size.to_string().into_bytes())];
+                eng.literal_next = true;
                 eng.write_headers(self.stream, &list, true, out);
                 self.state = SState::Done;
                 true
@@ -625,7 +648,7 @@ pub fn client_conn(env: &CellEnv, conn: &ConnPlan) -> Vec<XferOutcome> {
     }
     pump.out.extend_from_slice(&hello);
     let mut enq: u64 = hello.len() as u64;
-    let mut staged: std::collections::VecDeque<(Vec<u8>, Option<usize>)> = std::collections::VecDeque::new();
+    let mut staged: std::collections::VecDeque<(Vec<u8>, Option<usize>, u32, bool)> = std::collections::VecDeque::new();
     let mut staged_bytes = 0usize;
 
     // when does each stream start: all at once, or staggered by bytes moved on the connection
@@ -711,7 +734,8 @@ pub fn client_conn(env: &CellEnv, conn: &ConnPlan) -> Vec<XferOutcome> {
             let mut unit = Vec::new();
             snd.produce(&mut eng, &mut unit);
             staged_bytes += unit.len();
-            staged.push_back((unit, if snd.done() { Some(i) } else { None }));
+            // (the frame that opens a stream carries HPACK state: it is always sent)
+            staged.push_back((unit, if snd.done() { Some(i) } else { None }, st.id, false));
             st.sender = Some(snd);
             st.started = true;
             st.obs.attempted = true;
@@ -747,7 +771,7 @@ pub fn client_conn(env: &CellEnv, conn: &ConnPlan) -> Vec<XferOutcome> {
                     }
                     any = true;
                     staged_bytes += unit.len();
-                    staged.push_back((unit, if snd.done() { Some(i) } else { None }));
+                    staged.push_back((unit, if snd.done() { Some(i) } else { None }, st.id, true));
                     if snd.done() {
                         break;
                     }
@@ -764,7 +788,7 @@ pub fn client_conn(env: &CellEnv, conn: &ConnPlan) -> Vec<XferOutcome> {
                 if !eng.ctrl.is_empty() {
                     enq += eng.ctrl.len() as u64;
                     pump.out.append(&mut eng.ctrl);
-                } else if let Some((unit, fin)) = staged.pop_front() {
+                } else if let Some((unit, fin, _, _)) = staged.pop_front() {
                     staged_bytes -= unit.len();
                     enq += unit.len() as u64;
                     pump.out.extend_from_slice(&unit);
@@ -853,6 +877,13 @@ pub fn client_conn(env: &CellEnv, conn: &ConnPlan) -> Vec<XferOutcome> {
                     }
                     Ev::Rst { stream, code } => {
                         let Some(&i) = by_id.get(&stream) else { continue };
+                        // a reset stream gets nothing more: frames still waiting here are dropped
+                        // (sozu counts DATA on a stream it has reset as a "glitch" towards
+                        // ENHANCE_YOUR_CALM; only what was already in flight can still reach it)
+                        let dropped_flow: usize = staged.iter().filter(|u| u.2 == stream && u.3 && u.0.len() >= 9 && u.0[3] == FT_DATA).map(|u| u.0.len() - 9).sum();
+                        eng.refund_connection_window(dropped_flow);
+                        staged.retain(|u| !(u.2 == stream && u.3));
+                        staged_bytes = staged.iter().map(|u| u.0.len()).sum();
                         let st = &mut streams[i];
                         if !st.finished {
                             st.obs.resp.error = Some(("rst_stream".into(), format!("RST_STREAM code {code} after {} response body bytes", st.obs.resp.bytes)));
